@@ -64,3 +64,79 @@ theorem randrangeLoop_congr {ent₁ ent₂ : Entropy} {order : Int} (fuel : Nat)
         rw [hist_snoc]; exact h (i + 1)
 
 end Rand
+
+namespace Rand
+
+/-- the scripted-stream source answers request number `|pre| + 1` with the `size` bytes that follow
+the `sum pre` bytes already handed out -/
+theorem streamEntropy_snoc (s : Bytes) (pre : List Nat) (size : Nat) :
+    streamEntropy s (pre ++ [size]) =
+      if pre.sum + size > s.length then .error .indexError else .ok ((s.drop pre.sum).take size) := by
+  simp [streamEntropy, List.getLast?_append]
+
+theorem streamEntropy_shift (s : Bytes) (hist pre : List Nat) (size : Nat) (hsum : hist.sum ≤ s.length) :
+    streamEntropy s (hist ++ (pre ++ [size])) = streamEntropy (s.drop hist.sum) (pre ++ [size]) := by
+  rw [← List.append_assoc, streamEntropy_snoc, streamEntropy_snoc]
+  simp only [List.sum_append, List.length_drop, List.drop_drop]
+  by_cases h : hist.sum + pre.sum + size > s.length
+  · rw [if_pos h, if_pos (by omega)]
+  · rw [if_neg h, if_neg (by omega)]
+
+def relabel (hist : List Nat) : Option (Res (Nat × List Nat)) → Option (Res (Nat × List Nat)) :=
+  Option.map (Except.map fun p => (p.1, hist ++ p.2))
+
+theorem randrangeLoop_stream_shift (s : Bytes) (order : Int) (hist : List Nat) (hsum : hist.sum ≤ s.length) (fuel : Nat) :
+    ∀ h2 : List Nat, randrangeLoop (streamEntropy s) order fuel (hist ++ h2) =
+      relabel hist (randrangeLoop (streamEntropy (s.drop hist.sum)) order fuel h2) := by
+  induction fuel with
+  | zero => intro h2; rfl
+  | succ f ih =>
+    intro h2
+    unfold randrangeLoop
+    simp only
+    rw [List.append_assoc, streamEntropy_shift s hist h2 _ hsum]
+    split
+    · rfl
+    · split
+      · rfl
+      · simp [relabel, Except.map]
+      · exact ih _
+
+end Rand
+
+namespace Rand
+
+/-- converse of `randrangeLoop_ok`: `j` rejected chunks followed by an accepted one make the loop return it -/
+theorem randrangeLoop_complete {ent : Entropy} {order : Int} (j : Nat) :
+    ∀ (fuel : Nat) (hist : List Nat) (k : Nat), j < fuel →
+      (∀ i, i < j → ∃ c, ent (hist ++ List.replicate (i + 1) (upper256 order)) = .ok c ∧ oneDraw order c = .ok none) →
+      (∃ c, ent (hist ++ List.replicate (j + 1) (upper256 order)) = .ok c ∧ oneDraw order c = .ok (some k)) →
+      randrangeLoop ent order fuel hist = some (.ok (k, hist ++ List.replicate (j + 1) (upper256 order))) := by
+  induction j with
+  | zero =>
+    intro fuel hist k hf _ hacc
+    obtain ⟨f, rfl⟩ : ∃ f, fuel = f + 1 := ⟨fuel - 1, by omega⟩
+    obtain ⟨c, hc, hd⟩ := hacc
+    simp only [Nat.zero_add, List.replicate_one] at hc ⊢
+    unfold randrangeLoop
+    simp only [hc, hd]
+  | succ j ih =>
+    intro fuel hist k hf hrej hacc
+    obtain ⟨f, rfl⟩ : ∃ f, fuel = f + 1 := ⟨fuel - 1, by omega⟩
+    obtain ⟨c0, hc0, hd0⟩ := hrej 0 (by omega)
+    simp only [Nat.zero_add, List.replicate_one] at hc0
+    unfold randrangeLoop
+    simp only [hc0, hd0]
+    rw [ih f (hist ++ [upper256 order]) k (by omega), hist_snoc]
+    · intro i hi
+      obtain ⟨c, hc, hd⟩ := hrej (i + 1) (by omega)
+      exact ⟨c, by rw [hist_snoc]; exact hc, hd⟩
+    · obtain ⟨c, hc, hd⟩ := hacc
+      exact ⟨c, by rw [hist_snoc]; exact hc, hd⟩
+
+end Rand
+
+theorem Rand.sum_replicate (j u : Nat) : (List.replicate j u).sum = j * u := by
+  induction j with
+  | zero => simp
+  | succ j ih => rw [List.replicate_succ, List.sum_cons, ih, Nat.succ_mul]; omega
